@@ -45,6 +45,7 @@ MQR(q)    == CHOOSE r \in ToSet(Scn.mq) : r.q = q
 Internal(q) == LQR(q).internal          \* mint quote with the same invoice, or ""
 Mutexes   == Scn.mutex                  \* FALSE: the implementation before commit bbe32f5 (must fail)
 Crashes   == Scn.crash                  \* a process crash may happen once
+Faults    == Scn.faults                 \* one storage call may fail (the call returns an error, the request handles it)
 LnFree    == Scn.ln = "any"             \* conformance mode: any Lightning answer at any time
 ReleaseByQuote == Scn.releasecheck      \* FALSE: the implementation before commit d621dd9 (must fail)
 PollNotFound == Scn.pollnotfound        \* TRUE: a variant in which a poll treats "no such payment" as a failed payment
@@ -54,9 +55,11 @@ VARIABLES used, pend, sigs, lqs, mqs,   \* storage
           settled, pay, payer,          \* Lightning backend: invoice settled, outgoing payment truth, who funds it
           mu, pc, loc, res,             \* mutex holders, program counters, locals, replies
           uses, issues, pays,           \* ghosts
-          crashed, crashAt, last        \* crash bookkeeping, label of the step just taken
-vars == <<used, pend, sigs, lqs, mqs, settled, pay, payer, mu, pc, loc, res, uses, issues, pays, crashed, crashAt, last>>
-View == <<used, pend, sigs, lqs, mqs, settled, pay, payer, mu, pc, loc, res, uses, issues, pays, crashed, crashAt>>
+          crashed, crashAt,             \* crash bookkeeping
+          faulted, faultAt,             \* one storage call has failed: <<request, pc>>
+          last                          \* label of the step just taken
+vars == <<used, pend, sigs, lqs, mqs, settled, pay, payer, mu, pc, loc, res, uses, issues, pays, crashed, crashAt, faulted, faultAt, last>>
+View == <<used, pend, sigs, lqs, mqs, settled, pay, payer, mu, pc, loc, res, uses, issues, pays, crashed, crashAt, faulted, faultAt>>
 
 PendSecrets   == {x[1] : x \in pend}
 PendOf(q)     == {x[1] : x \in {y \in pend : y[2] = q}}
@@ -84,6 +87,8 @@ Init ==
   /\ pays = [q \in MQs |-> IF MQR(q).settled \/ MQR(q).st \in {"PAID", "ISSUED"} THEN 1 ELSE 0]
   /\ crashed = FALSE
   /\ crashAt = <<>>
+  /\ faulted = FALSE
+  /\ faultAt = <<>>
   /\ last = <<"", "">>
 
 (* ---- helpers ---------------------------------------------------------- *)
@@ -99,7 +104,7 @@ Use(ss)        == uses' = [s \in Secrets |-> IF s \in ss THEN uses[s] + 1 ELSE u
 DB   == <<used, pend, sigs, lqs, mqs>>
 LN   == <<settled, pay, payer>>
 GH   == <<uses, issues, pays>>
-CR   == <<crashed, crashAt>>
+CR   == <<crashed, crashAt, faulted, faultAt>>
 
 PayAnswers    == {"succeeded", "pending", "failed", "error"}
 StatusAnswers == {"notfound", "error", "failed", "pending", "succeeded"}
@@ -392,7 +397,26 @@ Crash ==        \* the process dies: every running request stops where it is, lo
   /\ pc' = [p \in Procs |-> IF ~IsPost(p) /\ pc[p] # "done" THEN "dead" ELSE pc[p]]
   /\ mu' = [proofs |-> "", quote |-> ""]
   /\ last' = <<"env", "crash">>
-  /\ UNCHANGED <<DB, LN, GH, loc, res>>
+  /\ UNCHANGED <<DB, LN, GH, loc, res, faulted, faultAt>>
+
+\* the storage call a request is about to make fails.  Every caller returns the error (deferred unlocks run, nothing is
+\* compensated) except MintTokens, which writes the quote back to the state it had (t8).
+StoragePcs == {"s1", "s2", "s3", "s4", "s5", "m1", "m2", "m3", "m4", "m5", "ms1", "ms2", "ms3", "r1", "r2", "r3", "i2", "i3",
+               "g1", "g3", "g4", "g5", "g5b", "g6", "g7", "g8", "c0", "c1", "c3", "c4", "c5", "c5b", "c6", "c7", "c8", "c9", "c10",
+               "t1", "t3", "t4", "t5", "t6", "t7", "t8", "u1", "u3", "n1", "n2"}
+NeedsLock(l) == CASE l \in {"s1", "m1", "g1", "c1", "c9", "ms1", "r1"} -> "proofs"
+                  [] l \in {"t1", "u1", "n1", "i3"} -> "quote"
+                  [] OTHER -> ""
+Fault(p) ==
+  /\ Faults /\ ~faulted /\ ~crashed /\ pc[p] \in StoragePcs
+  /\ NeedsLock(pc[p]) # "" => CanLock(p, NeedsLock(pc[p]))
+  /\ faulted' = TRUE /\ faultAt' = <<Kind(p), pc[p]>>
+  /\ last' = <<p, "fault">>
+  /\ IF Kind(p) = "mint" /\ pc[p] \in {"t4", "t5", "t6", "t7"}
+     THEN Goto(p, "t8") /\ UNCHANGED <<mu, res>>
+     ELSE /\ Finish(p, "err:db")
+          /\ mu' = [m \in DOMAIN mu |-> IF mu[m] = p THEN "" ELSE mu[m]]
+  /\ UNCHANGED <<DB, LN, GH, crashed, crashAt, loc>>
 
 StepOf(p) ==
   CASE Kind(p) = "swap"       -> Swap(p)
@@ -408,6 +432,7 @@ Next ==
   \/ \E p \in PostProcs : ConcOver /\ StepOf(p)     \* follow-up requests (after a crash: on the restarted mint)
   \/ \E q \in LQs : Resolve(q)
   \/ Crash
+  \/ \E p \in ConcProcs : Fault(p)
 
 Spec == Init /\ [][Next]_vars
 
@@ -427,17 +452,20 @@ QuoteLies   == \E q \in LQs : \/ lqs[q] = "UNPAID" /\ pay[q] = "succeeded"
 MintQuoteStuck == \E q \in MQs : mqs[q] = "PENDING"                  \* nobody moves a PENDING mint quote on
 IssuedNoSigs == \E q \in MQs : mqs[q] = "ISSUED" /\ issues[q] = 0     \* marked ISSUED, the signatures never stored
 
-Inv_NoDoubleUse == NoDoubleUse
+Inv_NoDoubleUse == ~faulted => NoDoubleUse     \* after a failed storage call the windows reported below lead to it
 Inv_IssueOnce   == IssueOnce
-Inv_Quiet       == (Quiet /\ ~crashed) => ~Inflation /\ ~Stranded /\ ~LockedForGood /\ ~QuoteLies /\ ~MintQuoteStuck /\ ~IssuedNoSigs
+Inv_Quiet       == (Quiet /\ ~crashed /\ ~faulted) => ~Inflation /\ ~Stranded /\ ~LockedForGood /\ ~QuoteLies /\ ~MintQuoteStuck /\ ~IssuedNoSigs
 
 \* crash windows: reported, not failed on (the mint has no transaction spanning several storage calls; the windows
 \* found on the real mint are known findings of C07).  One line per (window, kind of damage).
-BadKinds == {k \in {"inflation", "stranded", "locked", "quotelies", "mqstuck", "issuednosigs"} :
+BadKinds == {k \in {"inflation", "stranded", "locked", "quotelies", "mqstuck", "issuednosigs", "doubleuse"} :
                CASE k = "inflation" -> Inflation [] k = "stranded" -> Stranded [] k = "locked" -> LockedForGood
                  [] k = "quotelies" -> QuoteLies [] k = "mqstuck" -> MintQuoteStuck
-                 [] k = "issuednosigs" -> IssuedNoSigs}
+                 [] k = "issuednosigs" -> IssuedNoSigs
+                 [] k = "doubleuse" -> ~NoDoubleUse}
 Inv_CrashReport == (Quiet /\ crashed /\ BadKinds # {}) => PrintT(<<"WINDOW", ToJson(crashAt), ToJson(BadKinds)>>)
+
+Inv_FaultReport == (Quiet /\ faulted /\ BadKinds # {}) => PrintT(<<"FAULTWINDOW", ToJson(faultAt), ToJson(BadKinds)>>)
 
 \* with a crash: what must hold even then (safety half of C07 that the code does keep)
 Inv_CrashNoDoubleIssue == IssueOnce
